@@ -333,13 +333,8 @@ public:
 			deallocate(coefficients,ncoeffs);
 			deallocate(naxes,ndim);
 			deallocate(strides,ndim);
-			for(uint32_t i=0; i<naux; i++){
-				deallocate(aux[i][0],strlen(&aux[i][0][0])+1);
-				deallocate(aux[i][1],strlen(&aux[i][1][0])+1);
-				deallocate(aux[i],2);
-			}
-			deallocate(aux,naux);
 		}
+		release_aux();
 	}
 	
 	splinetable& operator=(splinetable&& other){
@@ -823,6 +818,26 @@ private:
 		typedef std::allocator_traits<other_alloc_t> other_alloc_traits;
 		other_alloc_t other_alloc(allocator);
 		other_alloc_traits::deallocate(other_alloc,buf,n);
+	}
+	
+	///Release all auxiliary keys and values, whether or not the table holds
+	///spline data (write_key works on an empty table). Tolerates the partially
+	///filled key table which an interrupted read_fits leaves behind.
+	void release_aux(){
+		if(aux){
+			for(uint32_t i=0; i<naux; i++){
+				if(!aux[i])
+					continue;
+				if(aux[i][0])
+					deallocate(aux[i][0],strlen(&aux[i][0][0])+1);
+				if(aux[i][1])
+					deallocate(aux[i][1],strlen(&aux[i][1][0])+1);
+				deallocate(aux[i],2);
+			}
+			deallocate(aux,naux);
+		}
+		aux=NULL;
+		naux=0;
 	}
 	
 	///Read from a file
